@@ -151,7 +151,7 @@ func cliBody(args []string, stdin string, files map[string]string, outFiles []st
 			res.Stderr = string(b)
 			for _, n := range outFiles {
 				if b, err := os.ReadFile(filepath.Join(dir, strings.TrimPrefix(n, "@/"))); err == nil {
-					res.Files[n] = string(b)
+					res.Files[n] = cliScrubLog(string(b))
 				}
 			}
 		}
@@ -217,4 +217,19 @@ func cliTableDump() {
 			fmt.Printf("    stderr=%q\n", cliScrub(res.Stderr))
 		}
 	}
+}
+
+// cliScrubLog blanks the time stamp of booster's log file ("Date        : 29 Feb 20 23:59 UTC"): a log's date line is
+// a time stamp by design, not a result.
+func cliScrubLog(s string) string {
+	if !strings.HasPrefix(s, "BOOSTER Support\n") && !strings.Contains(s, "\nDate        : ") {
+		return s
+	}
+	lines := strings.Split(s, "\n")
+	for i, l := range lines {
+		if strings.HasPrefix(l, "Date        : ") || strings.HasPrefix(l, "End         : ") {
+			lines[i] = l[:14] + "<time stamp>"
+		}
+	}
+	return strings.Join(lines, "\n")
 }
